@@ -349,6 +349,73 @@ theorem c18_fs_start_loads_every_source (rej : List σ) (entries : List (σ × E
       · simp [Function.comp, Provider.obs, fileSystem, hacc, FsEvent.raw, FileState.obs]
   rw [this]; rfl
 
+/-! ### rule files replaced while `Start` is loading them -/
+
+/-- **No second version next to the first one.**  Rule files may be replaced while `Start` is inside a processor call
+of its initial load (`fsStartDuring`: any directory, any call `held`, any changes `chg`, any refusal pattern).  If
+`Start` succeeds, it has done what the create notifications for the files *as the load read them* (`fsReadDuring`) do —
+one sequential history, no handler running next to the initial load — so after it and after any notifications `es` the
+watcher delivers later on, the repository holds exactly what the provider remembers, every source has at most ONE rule
+set loaded (never an old and a new version side by side), and that one is the latest valid content the load and the
+notifications have shown for it. -/
+theorem c18_fs_start_under_changes_no_duplicate (rej : List σ) (entries : List (σ × EntryKind × FileState))
+    (held : Nat) (chg : List (σ × FileState)) (es : List (FsEvent σ))
+    (hstart : (fsStartDuring rej entries held chg).err = false)
+    (hz : ∀ p ∈ fsReadDuring (fsSources entries) held chg, p.2 ≠ .valid 0)
+    (hes : ∀ e ∈ es, (fileSystem : Provider σ _).admissible e) :
+    (run fsStep (fsStartDuring rej entries held chg).st es).active =
+      (run fsStep (fsStartDuring rej entries held chg).st es).book ∧
+    (run fsStep (fsStartDuring rej entries held chg).st es).book.keys.Nodup ∧
+    ∀ s, loaded (run fsStep (fsStartDuring rej entries held chg).st es).active s =
+        (desired ((((fsReadDuring (fsSources entries) held chg).map
+          fun p => (⟨[.create], p.1, p.2, rej⟩ : FsEvent σ)) ++ es).map
+            ((fileSystem : Provider σ _).obs · s))).toList ∧
+      (loaded (run fsStep (fsStartDuring rej entries held chg).st es).active s).length ≤ 1 := by
+  have hrun : run fsStep (fsStartDuring rej entries held chg).st es =
+      (fileSystem : Provider σ _).after (((fsReadDuring (fsSources entries) held chg).map
+        fun p => (⟨[.create], p.1, p.2, rej⟩ : FsEvent σ)) ++ es) := by
+    show _ = run fsStep St.init _
+    rw [run_append]
+    unfold fsStartDuring at hstart ⊢
+    rw [fsInit_run rej _ St.init hstart]
+  have hadm : ∀ e ∈ ((fsReadDuring (fsSources entries) held chg).map
+      fun p => (⟨[.create], p.1, p.2, rej⟩ : FsEvent σ)) ++ es, (fileSystem : Provider σ _).admissible e := by
+    intro e he
+    rcases List.mem_append.mp he with he | he
+    · obtain ⟨p, hp, rfl⟩ := List.mem_map.mp he
+      exact hz p hp
+    · exact hes e he
+  rw [hrun]
+  obtain ⟨h1, h2⟩ := c18_repository_is_book fileSystem c18_file_system_correct _ hadm
+  refine ⟨h1, h2, fun s => ?_⟩
+  have hc := c18_converges fileSystem c18_file_system_correct _ hadm s
+  refine ⟨hc, ?_⟩
+  rw [hc]
+  cases desired _ <;> simp
+
+/-- **... and the next notification brings a file that was replaced after the load had read it to its latest
+content.**  Whatever happened during `Start` and since: a notification that shows content `h` for file `n` and is not
+refused leaves exactly `[h]` loaded for `n` — the version read at start is replaced, not kept next to it. -/
+theorem c18_fs_changed_during_start_converges (rej : List σ) (entries : List (σ × EntryKind × FileState))
+    (held : Nat) (chg : List (σ × FileState)) (es : List (FsEvent σ))
+    (hstart : (fsStartDuring rej entries held chg).err = false)
+    (hz : ∀ p ∈ fsReadDuring (fsSources entries) held chg, p.2 ≠ .valid 0)
+    (hes : ∀ e ∈ es, (fileSystem : Provider σ _).admissible e)
+    (e : FsEvent σ) (he : (fileSystem : Provider σ _).admissible e) (n : σ) (h : Hash)
+    (hshow : (fileSystem : Provider σ _).shows e n = .content h) (hacc : n ∉ e.rej) :
+    loaded (run fsStep (fsStartDuring rej entries held chg).st (es ++ [e])).active n = [h] := by
+  have hes' : ∀ x ∈ es ++ [e], (fileSystem : Provider σ _).admissible x := by
+    intro x hx; rcases List.mem_append.mp hx with hx | hx
+    · exact hes x hx
+    · simp only [List.mem_singleton] at hx; exact hx ▸ he
+  rw [((c18_fs_start_under_changes_no_duplicate rej entries held chg (es ++ [e]) hstart hz hes').2.2 n).1,
+    ← List.append_assoc, List.map_append, desired, List.foldl_append]
+  have hobs : (fileSystem : Provider σ _).obs e n = .content h := by
+    unfold Provider.obs
+    have : n ∉ (fileSystem : Provider σ _).rej e := hacc
+    simp [this, hshow]
+  simp [hobs, Obs.next]
+
 /-! ## kubernetes -/
 
 variable {κ : Type} [DecidableEq κ]
@@ -387,6 +454,22 @@ example : (fsStart [] dirAtStart).err = false ∧
     (fsStart [] dirAtStart).st.active = [("current.yaml", 4), ("plain.yaml", 5)] := by decide
 /-- a link to a directory is read like a file and makes `Start` fail, a sub directory is skipped -/
 example : (fsStart [] [("d", .symlink, .invalid), ("x.yaml", .regular, .valid 1)]).err = true := by decide
+
+/-- a rule file is replaced while `Start` is inside the processor call for it (`held = 0`), a second one before it is
+opened, a third one appears: the first keeps the version that was read, the second is loaded in its new version, the
+third is not looked at — and the chmod notification afterwards updates the first -/
+def dirChanged : List (String × FileState) := [("a.yaml", .valid 2), ("b.yaml", .valid 6), ("new.yaml", .valid 9)]
+
+example : fsFirstCall (fsSources dirAtStart) 0 = some 0 := by decide
+example : (fsStartDuring [] [("a.yaml", .regular, .valid 1), ("b.yaml", .regular, .valid 5)] 0 dirChanged).err = false ∧
+    (fsStartDuring [] [("a.yaml", .regular, .valid 1), ("b.yaml", .regular, .valid 5)] 0 dirChanged).calls =
+      [(.created "a.yaml" 1, true), (.created "b.yaml" 6, true)] := by decide
+example : (run fsStep (fsStartDuring [] [("a.yaml", .regular, .valid 1), ("b.yaml", .regular, .valid 5)] 0 dirChanged).st
+    [⟨[.chmod], "a.yaml", .valid 2, []⟩]).active = [("b.yaml", 6), ("a.yaml", 2)] := by decide
+/-- what the statement excludes: a second handler (a watcher started before the initial load) that finds no digest for
+the file either reports `OnCreated` too, and the repository keeps both versions -/
+example : loaded (((St.init : St String).active.apply (.created "a.yaml" 1)).apply (.created "a.yaml" 2)) "a.yaml" = [1, 2] := by
+  decide
 
 /-- a bucket: one blob breaks while another changes and a third disappears; then the bucket cannot be reached -/
 def blobHistory : List (BlobEvent String) :=
